@@ -84,6 +84,63 @@ func c14(r *Run) {
 	ro := r.roles()
 	px := protoEffects(w)
 	netClose := w.MustFn("(*netFD).Close")
+	// a dial that ran into its deadline reports the error of the attempt that timed out (whose Timeout() is true), not an
+	// earlier address's error; and no raw close was added on the dial path (census of C15)
+	{
+		fn := w.MustFn("(*dialer).dialTCP")
+		dialTCPFn := w.MustFn("DialTCP")
+		_, cutCtx, n := recvMatchersV(fn, func(ch ssa.Value) bool {
+			c, ok := ch.(*ssa.Call)
+			return ok && c.Call.IsInvoke() && c.Call.Method.Name() == "Done"
+		})
+		if n > 0 {
+			var starts []Start
+			for _, b := range fn.Blocks {
+				if len(b.Instrs) == 0 {
+					continue
+				}
+				if ifi, ok := b.Instrs[len(b.Instrs)-1].(*ssa.If); ok {
+					for _, br := range []bool{true, false} {
+						if cutCtx(ifi, ifi.Cond, br) {
+							starts = append(starts, OnEdge(ifi, br))
+						}
+					}
+				}
+			}
+			isAttemptErr := func(v ssa.Value) bool {
+				e, ok := v.(*ssa.Extract)
+				if !ok || e.Index != 1 {
+					return false
+				}
+				c, ok := e.Tuple.(*ssa.Call)
+				return ok && c.Call.StaticCallee() == dialTCPFn
+			}
+			ss := &Search{Fn: fn}
+			okAll := len(starts) > 0
+			var at ssa.Instruction
+			// only the returns reached before the next attempt
+			stopNext := func(i ssa.Instruction) bool { return isCall(i, dialTCPFn) }
+			ss.Stop = stopNext
+			for _, ret := range ss.Reachable(starts, func(i ssa.Instruction) bool { _, ok := i.(*ssa.Return); return ok }) {
+				for _, v := range resultValues(ret.(*ssa.Return), 1) {
+					vals := []ssa.Value{v}
+					if ph, isPhi := v.(*ssa.Phi); isPhi {
+						vals = ph.Edges
+					}
+					for _, x := range vals {
+						if !isAttemptErr(x) {
+							okAll, at = false, ret
+						}
+					}
+				}
+			}
+			r.Visited += ss.Visited
+			r.ob("C14.R3:deadline-returns-the-timed-out-attempts-error", "when the context has expired after a failed attempt, dialTCP returns that attempt's error (the one whose Timeout() is true), not the error remembered from an earlier address", fn, at, okAll, "the value returned on the ctx.Done() branch is DialTCP's error", true)
+		}
+	}
+	if r.keep == nil {
+		r.borrow([]string{"C15.R1:close-site"}, "C15.R1", "C14.R1", func() { c15(r) })
+	}
 	isOwnerClose := func(i ssa.Instruction) bool {
 		if isSysCall("Close")(i) {
 			return true
